@@ -48,6 +48,29 @@ def seeds():
     return "\n".join(out)
 
 
+def inventory():
+    import sys
+    sys.path.insert(0, os.path.join(ROOT, "harness"))
+    import vlib
+    out = ["Generated from `coq/Props/*.v` (statements only; proofs live in `coq/Proofs/`). Every theorem is closed by",
+           "`exact <lemma>` and followed by `Print Assumptions`, which the check parses on every run (all report *Closed under",
+           "the global context*: no axioms, not even the standard library's). `_refuted` = the full-strength statement is false",
+           "of the faithful model (witness computed in Coq; the same input replayed on the real code is the finding);",
+           "`_partial` = the part that is provable, with what is missing said in the file.", "",
+           "| property | property files | theorems | examples | model / proof files in the closure | refuted or partial statements |",
+           "|---|---|---|---|---|---|"]
+    for f in sorted(glob.glob(os.path.join(ROOT, "coq", "Props", "C*.v"))):
+        rel = "Props/" + os.path.basename(f)
+        src = vlib.strip_comments(open(f).read())
+        th = re.findall(r"^\s*(?:Theorem|Lemma|Corollary)\s+([A-Za-z0-9_']+)", src, re.M)
+        ex = re.findall(r"^\s*Example\s+([A-Za-z0-9_']+)", src, re.M)
+        clo = [c for c in vlib.closure(rel) if not c.startswith("Props/")]
+        special = [t for t in th if "refuted" in t or "partial" in t]
+        pid = os.path.basename(f)[:3]
+        out.append(f"| {pid} | `{rel}` | {len(th)} | {len(ex)} | {', '.join('`'+c[:-2]+'`' for c in clo)} | {', '.join('`'+t+'`' for t in special) or '—'} |")
+    return "\n".join(out)
+
+
 def main():
     p = os.path.join(ROOT, "DESIGN.md")
     s = open(p).read()
@@ -55,7 +78,8 @@ def main():
     b = s.index("### 9.3 Seeded changes and which check catches each")
     c = s.index("--------------------------------------------------------------------------------------------", b)
     s = (s[:a] + "### 9.2 Candidate findings: outcome\n\n" + findings() + "\n\n" +
-         "### 9.3 Seeded changes and which check catches each\n\n" + seeds() + "\n\n" + s[c:])
+         "### 9.3 Seeded changes and which check catches each\n\n" + seeds() + "\n\n" +
+         "### 9.4 Theorem inventory\n\n" + inventory() + "\n\n" + s[c:])
     open(p, "w").write(s)
 
 
